@@ -239,6 +239,14 @@ class FxBuilder(Builder):
             if ty == "bool":
                 res = 1 if res else 0
             return ("const", res, ty)
+        if k == "call" and len(e[2]) == 2 and e[1].split("::")[-1] in ("wrapping_add", "wrapping_sub"):
+            a = self.fold(e[2][0])
+            b = self.fold(e[2][1])
+            if a is not None and b is not None:
+                w = INT_W.get(a[2], 64)
+                r = a[1] + b[1] if e[1].endswith("wrapping_add") else a[1] - b[1]
+                return ("const", r & ((1 << w) - 1), a[2])
+            return None
         if k == "field" and e[2] in ("#0", "#1"):
             # (a op-with-overflow b).#0 / .#1 on constants
             inner = e[1]
@@ -587,7 +595,7 @@ class FxBuilder(Builder):
                 base_state = dict(fr.state)
                 states = []
                 state_labels = []
-                sw_id = (fn.id, b, fr.depth, len(self.writes))
+                sw_id = (fn.id, b, fr.id, len(self.writes))
                 saved_branch = self.branch
                 for lab, tb in order:
                     fr.state = dict(base_state)
